@@ -101,7 +101,7 @@ def diagram_case(ctx, k, rng):
         opts["title"] = "T%d" % k
     if rng.random() < 0.15:
         lo, hi = -2.0 * scale, 12.0 * scale
-        opts["xy_range"] = [lo, hi, lo, hi]
+        opts["xy_range"] = [lo, hi, lo, hi] if rng.random() < 0.5 else [lo, hi * float(rng.choice([0.5, 2.0])), lo * 0.5, hi * float(rng.choice([0.25, 1.0, 3.0]))]
     single = nd == 1 and rng.random() < 0.5
     arg = dgms[0] if single else dgms
     shown_idx = opts.get("plot_only") or list(range(nd))
